@@ -361,7 +361,7 @@ func replay(c *common.Ctx, path string) int {
 
 func init() {
 	common.Register(&common.Prop{
-		ID: "C11", Level: "exploration", Run: run, Coverage: coverage, Replay: replay,
+		ID: "C11", Level: "exploration", Run: run, Coverage: coverage, Replay: replay, Race: raceBody,
 		Assumptions: []string{
 			"type pool: int int8 int16 int32 int64 uint uint8 uint64 float32 float64 string bool interface{} error *int64 struct S []int64 []string []interface{} [][]int64 map[string]int64 map[string]interface{} func(int64) int64 func(...interface{}) (int64, error)",
 			"script values: nil, true, 7, 2^40+5, -3, 3.0, 2.5, \"\", \"a\", \"ab\", \"12\", lists (ints, mixed, mixed convertible with nil, empty, nested), untyped maps, make'd []int64 []float64 []string map[string]int64 map[string]interface, a script function, new(int64), make(S)",
